@@ -215,13 +215,24 @@ Section RSound.
     clear H. induction (rt_outputs g ++ _) as [|y l IH]; [contradiction|]. simpl. destruct Hin as [->|Hin]; [lia | specialize (IH Hin); lia].
   Qed.
 
+  Definition mentioned (g : rgraphT) (x : name) : Prop :=
+    In x (rt_outputs g) \/ (exists n, In n (rt_nodes g) /\ In x (n_ins n ++ n_caps n ++ n_outs n)).
+  Lemma max_name_le g B : (forall x, mentioned g x -> x <= B) -> max_name g <= B.
+  Proof.
+    intro H. unfold max_name.
+    assert (Hall : forall x, In x (rt_outputs g ++ flat_map (fun n => n_ins n ++ n_caps n ++ n_outs n) (rt_nodes g)) -> x <= B).
+    { intros x Hx. apply H. apply in_app_or in Hx as [Hx|Hx]; [now left | right; apply in_flat_map in Hx as (n & Hn & Hx); eauto]. }
+    clear H. induction (rt_outputs g ++ _) as [|y l IH]; simpl; [lia|].
+    assert (y <= B) by (apply Hall; now left). assert (fold_right Nat.max 0 l <= B) by (apply IH; intros; apply Hall; now right). lia.
+  Qed.
+
   Section RAction.
     Variables (g : rgraphT) (a : raction) (e ef : env V).
     Variables (p q : list nat) (xin rin : name) (rrest : list name) (ro src : name).
     Let T1 := ra_T1 a. Let red := ra_red a. Let T2 := ra_T2 a.
     Hypothesis Hssa : ssa V (rt_nodes g) e.
     Hypothesis Hev : evalg (rt_nodes g) e = Some ef.
-    Hypothesis Hconst : forall x l v, rt_const g x = Some l -> ef x = Some v -> denoteZ v = Some l.
+    Hypothesis Hconst : forall x l v, x <= max_name g -> rt_const g x = Some l -> ef x = Some v -> denoteZ v = Some l.
     Hypothesis HT2in : In T2 (rt_nodes g).
     Hypothesis HT2 : is_T T2 = true. Hypothesis Hi2 : n_ins T2 = [xin].
     Hypothesis Hpx : producer (rt_nodes g) xin = Some red. Hypothesis Hrm : is_rm red = true.
@@ -238,12 +249,12 @@ Section RSound.
                         | AxInput l => exists vnew, e fresh = Some vnew /\ denoteZ vnew = Some (map Z.of_nat l)
                         | _ => True end.
 
-    Let Hnd : NoDup (defs (rt_nodes g)) := proj1 Hssa.
-    Let Hinv : is_inverse p q := proj1 (inv_ok_perms p q Hinvok).
-    Let Hp : is_perm p := proj1 (proj2 (inv_ok_perms p q Hinvok)).
-    Let Hq : is_perm q := proj2 (proj2 (inv_ok_perms p q Hinvok)).
-    Let Hredin : In red (rt_nodes g) := proj1 (producer_spec _ _ _ Hpx).
-    Let HT1in : In T1 (rt_nodes g) := proj1 (producer_spec _ _ _ HpT1).
+    Lemma Hnd : NoDup (defs (rt_nodes g)). Proof. exact (proj1 Hssa). Qed.
+    Lemma Hinv : is_inverse p q. Proof. exact (proj1 (inv_ok_perms p q Hinvok)). Qed.
+    Lemma Hp : is_perm p. Proof. exact (proj1 (proj2 (inv_ok_perms p q Hinvok))). Qed.
+    Lemma Hq : is_perm q. Proof. exact (proj2 (proj2 (inv_ok_perms p q Hinvok))). Qed.
+    Lemma Hredin : In red (rt_nodes g). Proof. exact (proj1 (producer_spec _ _ _ Hpx)). Qed.
+    Lemma HT1in : In T1 (rt_nodes g). Proof. exact (proj1 (producer_spec _ _ _ HpT1)). Qed.
 
     Lemma rT_final n perm : In n (rt_nodes g) -> is_T n = true -> perm_of n = Some perm ->
       exists u y x vy, n_uses n = [u] /\ n_outs n = [y] /\ ef u = Some x /\ ef y = Some vy /\ teq vy (transpose perm x) /\ length perm = length (shape x).
@@ -303,7 +314,9 @@ Section RSound.
       - destruct (ra_axes a) as [|l|l]; try (destruct Hax as [Hc _]; discriminate).
         destruct Hax as (a0' & rr & ax & l0 & Er0 & Hc0 & _). injection Er0 as <- <-.
         simpl in Hl. destruct (ef rin) as [tv|] eqn:Et; [|discriminate]. destruct (ef a0) as [av|] eqn:Ea; [|discriminate]. injection Hl as <-.
-        rewrite (Hrm2 _ _ tv av ax Hop Hkd (Hconst a0 ax av Hc0 Ea)) in Hs. rewrite Hc0.
+        assert (Hb : a0 <= max_name g).
+        { apply max_name_ge. right. exists red. split; [exact Hredin|]. apply in_or_app. left. rewrite Hir. right. now left. }
+        rewrite (Hrm2 _ _ tv av ax Hop Hkd (Hconst a0 ax av Hb Hc0 Ea)) in Hs. rewrite Hc0.
         destruct (red_sem (Some ax) tv) as [yv|] eqn:Er; [|discriminate]. simpl in Hs. injection Hs as <-.
         destruct (Hone yv eq_refl) as (H1 & H2 & H3). exists tv, yv. repeat split; auto. right. eauto.
     Qed.
@@ -325,8 +338,559 @@ Section RSound.
           rewrite Hm in Hm1. injection Hm1 as <-. eauto. }
       destruct Hnew as (y1 & Hr1 & Ht1 & Hl1). destruct (red_sem_teq _ _ _ _ Hxx Hr1) as (y' & Hr' & Hy').
       exists y'. split; auto. split.
-      - eapply teq_trans; [exact Hy2|]. eapply teq_trans; [exact Ht1|]. apply transpose_teq; auto.
+      - eapply teq_trans; [exact Hy2|]. eapply teq_trans; [exact Ht1|]. apply transpose_teq; [exact Hp | unfold rank; now symmetry | exact Hy'].
       - rewrite <- (proj1 Hy'). exact Hl1.
     Qed.
+
+    (* ---- the rewritten node list as [map trn (filter keepb ns)] *)
+    Definition t2o : name := hd 0 (n_outs T2).
+    Definition rhoR : name -> name := rn t2o ro.
+    Definition relR (x : name) (v w : V) : Prop := if Nat.eqb x ro then tfull p v w else teq v w.
+    Definition red' : node :=
+      match ra_axes a with
+      | AxNone => mkNode (n_op red) (n_attrs red) (src :: tl (n_ins red)) (n_caps red) (n_outs red)
+      | AxAttr l => mkNode (n_op red) (match n_attrs red with kd :: _ => kd :: 1 :: map (fun k => 2 * k) l | [] => [] end)
+                           (src :: tl (n_ins red)) (n_caps red) (n_outs red)
+      | AxInput l => mkNode (n_op red) (n_attrs red) (src :: fresh :: tl (tl (n_ins red))) (n_caps red) (n_outs red)
+      end.
+    Definition trn (n : node) : node := subst_node t2o ro (if node_eqb n red then red' else n).
+    Definition keepb (n : node) : bool := negb (leqb (n_outs n) (n_outs T2)).
+    Definition const' : name -> option (list Z) :=
+      match ra_axes a with
+      | AxInput l => fun x => if Nat.eqb x fresh then Some (map Z.of_nat l) else rt_const g x
+      | _ => rt_const g
+      end.
+
+    Lemma red'_outs : n_outs red' = n_outs red.
+    Proof. unfold red'. destruct (ra_axes a); reflexivity. Qed.
+    Lemma trn_outs n : n_outs (trn n) = n_outs n.
+    Proof. unfold trn. destruct (node_eqb n red) eqn:E; cbn [subst_node n_outs]; [rewrite red'_outs; apply node_eqb_eq in E; now subst | reflexivity]. Qed.
+
+    Lemma T2_outs : n_outs T2 = [t2o].
+    Proof. destruct T2_shape as (y & rv & v2 & _ & Eo & _). unfold t2o. rewrite Eo. reflexivity. Qed.
+
+    Lemma apply_tr_eq : apply_tr g a = mkRT (map trn (filter keepb (rt_nodes g))) (map rhoR (rt_outputs g)) const'.
+    Proof.
+      unfold apply_tr. fold T1 red T2. rewrite Hsrc, Hro. unfold out1. rewrite T2_outs. cbn [hd_error]. fold fresh.
+      cbn [replace_all_uses g_nodes g_outputs]. f_equal.
+      rewrite map_map. fold red'.
+      assert (Hgen : forall l, filter (fun n => negb (leqb (n_outs n) [t2o])) (map (fun x => subst_node t2o ro (if node_eqb x red then red' else x)) l)
+                               = map trn (filter keepb l)).
+      { induction l as [|n l IH]; [reflexivity|]. cbn [map filter]. fold (trn n). rewrite trn_outs. unfold keepb at 1. rewrite T2_outs.
+        destruct (negb (leqb (n_outs n) [t2o])); cbn [map]; now rewrite IH. }
+      apply Hgen.
+    Qed.
+
+    (* names *)
+    Lemma ro_ne_t2o : ro <> t2o.
+    Proof.
+      destruct red_shape as (_ & _ & _ & _ & Exin & _). 
+      apply (use_ne_def A sem (rt_nodes g) e ef T2 ro t2o Hssa Hev HT2in).
+      - unfold n_uses. rewrite Hi2, Exin. now left.
+      - rewrite T2_outs. now left.
+    Qed.
+    Lemma rho_ro : rhoR ro = ro.
+    Proof. unfold rhoR, rn. destruct (Nat.eqb_spec ro t2o) as [E|_]; [destruct (ro_ne_t2o E) | reflexivity]. Qed.
+    Lemma rho_other x : x <> t2o -> rhoR x = x.
+    Proof. intro H. unfold rhoR, rn. destruct (Nat.eqb_spec x t2o); [contradiction | reflexivity]. Qed.
+    Lemma rho_t2o : rhoR t2o = ro.
+    Proof. unfold rhoR, rn. now rewrite Nat.eqb_refl. Qed.
+    Lemma rel_other x v w : x <> ro -> relR x v w <-> teq v w.
+    Proof. intro H. unfold relR. destruct (Nat.eqb_spec x ro); [contradiction | tauto]. Qed.
+    Lemma rel_ro v w : relR ro v w <-> tfull p v w.
+    Proof. unfold relR. rewrite Nat.eqb_refl. tauto. Qed.
+
+    Lemma outs_T2 n : In n (rt_nodes g) -> In t2o (n_outs n) -> n = T2.
+    Proof. intros Hn Hy. apply (defs_unique (rt_nodes g) n T2 t2o Hnd Hn HT2in Hy). rewrite T2_outs. now left. Qed.
+    Lemma outs_red n : In n (rt_nodes g) -> In ro (n_outs n) -> n = red.
+    Proof.
+      intros Hn Hy. destruct red_shape as (_ & _ & _ & Eo & _). apply (defs_unique (rt_nodes g) n red ro Hnd Hn Hredin Hy). rewrite Eo. now left.
+    Qed.
+    Lemma keepb_false n : In n (rt_nodes g) -> keepb n = false -> n = T2.
+    Proof.
+      intros Hn Hk. unfold keepb in Hk. apply negb_false_iff in Hk. apply leqb_eq in Hk. apply outs_T2; auto. rewrite Hk, T2_outs. now left.
+    Qed.
+    Lemma keepb_T2 : keepb T2 = false.
+    Proof. unfold keepb. apply negb_false_iff. unfold leqb. generalize (n_outs T2). induction l as [|x l IH]; simpl; [reflexivity | now rewrite Nat.eqb_refl]. Qed.
+
+    Lemma rel_list_teq xs vs ws : ~ In ro xs -> rel_list V relR xs vs ws -> Forall2 teq vs ws.
+    Proof.
+      intros Hn H. induction H as [|x v w xs vs ws Hr _ IH]; constructor.
+      - apply (rel_other x); auto. intro E. apply Hn. now left.
+      - apply IH. intro Hi. apply Hn. now right.
+    Qed.
+    Lemma teq_rel_list : forall ys o o', ~ In ro ys -> length o = length ys -> Forall2 teq o o' -> rel_list V relR ys o o'.
+    Proof.
+      induction ys as [|y ys IH]; intros o o' Hn Hl H.
+      - destruct o; [|discriminate]. inversion H; subst. constructor.
+      - destruct o as [|v o]; [discriminate|]. inversion H as [|? w ? o2 Hvw Hr]; subst. constructor.
+        + apply rel_other; auto. intro E. apply Hn. now left.
+        + apply IH; auto. intro Hi. apply Hn. now right.
+    Qed.
+
+    Lemma not_obs_caps m : In m (rt_nodes g) -> ~ In ro (n_caps m).
+    Proof.
+      intros Hm Hc. unfold robserved in Hobs. apply orb_false_iff in Hobs as [_ H2].
+      assert (Ht : existsb (fun m0 => mem ro (n_caps m0)) (rt_nodes g) = true) by (apply existsb_exists; exists m; split; auto; now apply mem_In).
+      congruence.
+    Qed.
+    Lemma not_obs_out : ~ In ro (rt_outputs g).
+    Proof. intro Hc. unfold robserved in Hobs. apply orb_false_iff in Hobs as [H1 _]. apply mem_In in Hc. congruence. Qed.
+
+    (* ---- the per-node obligations *)
+    Lemma tr_node_step pre n post em em' e1 :
+      rt_nodes g = pre ++ n :: post -> evalg pre e = Some em -> (forall x v, em x = Some v -> ef x = Some v) ->
+      rinv V rhoR relR em em' -> stepg em n = Some e1 -> (forall x v, e1 x = Some v -> ef x = Some v) ->
+      if keepb n then exists e1', stepg em' (trn n) = Some e1' /\ rinv V rhoR relR e1 e1' else rinv V rhoR relR e1 em'.
+    Proof.
+      intros Hsplit Hpre Hle Hi Hs Hle1.
+      assert (Hn : In n (rt_nodes g)) by (rewrite Hsplit; apply in_or_app; right; now left).
+      destruct (fresh_at V sem _ _ _ _ _ _ Hssa Hsplit Hpre) as [Hfr HndO].
+      destruct T1_shape as (t & xs & tv & Ei1 & Ec1 & Eo1 & Erin & Exs & Etv & Htv & Hlp).
+      destruct T2_shape as (t2o' & rv & v2 & Ec2 & Eo2 & Erv & Ev2 & Hv2 & Hlq).
+      destruct red_shape as (tv0 & yv & Etv0 & Eor & Exin & Eyv & Hred & Hrr).
+      assert (Et2 : t2o' = t2o) by (pose proof T2_outs as H; rewrite Eo2 in H; now injection H). subst t2o'.
+      pose proof Hir as Hir'. rewrite Erin in Hir'. pose proof Hi2 as Hi2'. rewrite Exin in Hi2'.
+      rewrite Erin, Etv in Etv0. injection Etv0 as <-.
+      destruct (keepb n) eqn:Ek.
+      - destruct (node_eqb n red) eqn:Enr.
+        + (* the reducer *)
+          apply node_eqb_eq in Enr. subst n.
+          assert (Htrn : trn red = subst_node t2o ro red') by (unfold trn; now rewrite node_eqb_refl).
+          rewrite Htrn.
+          (* at this point of the run: t and src are defined, ro and t2o are not *)
+          assert (Hemt : em t = Some tv).
+          { pose proof (step_reads A sem em red e1 t Hs) as Hd. unfold n_uses in Hd. rewrite Hir' in Hd. specialize (Hd (or_introl eq_refl)).
+            destruct (em t) as [tv1|] eqn:E1; [|congruence]. pose proof (Hle _ _ E1) as E2. congruence. }
+          assert (Hemro : em ro = None) by (apply Hfr; rewrite Eor; now left).
+          assert (Hemt2 : em t2o = None).
+          { destruct (em t2o) as [a2|] eqn:E2; [|reflexivity]. exfalso.
+            refine (avail_from_producer V sem (rt_nodes g) e T2 ro t2o Hssa HT2in _ _ pre (red :: post) em a2 Hsplit Hpre E2 Hemro).
+            - unfold n_uses. rewrite Hi2'. now left.
+            - rewrite T2_outs. now left. }
+          assert (Hemsrc : em src = Some xs).
+          { assert (Hd : em src <> None).
+            { refine (avail_from_producer V sem (rt_nodes g) e T1 src t Hssa HT1in _ _ pre (red :: post) em tv Hsplit Hpre Hemt).
+              - unfold n_uses. rewrite Ei1. now left.
+              - rewrite Eo1. now left. }
+            destruct (em src) as [x1|] eqn:E1; [|congruence]. pose proof (Hle _ _ E1) as E2. congruence. }
+          assert (Hsrc_t2 : src <> t2o) by (intro E; rewrite E in Hemsrc; congruence).
+          assert (Hsrc_ro : src <> ro) by (intro E; rewrite E in Hemsrc; congruence).
+          destruct (proj1 Hi src xs Hemsrc) as (w & Ew & Hrw). rewrite (rho_other src Hsrc_t2) in Ew. apply (rel_other src) in Hrw; [|exact Hsrc_ro].
+          assert (Hop : op_type (n_op red) = "ReduceMean"%string) by (unfold is_rm, nop in Hrm; now apply String.eqb_eq in Hrm).
+          destruct (red_new xs w tv yv Exs Htv Hlp Hrw Hred) as (y' & Hnew & Hfull).
+          apply (rinv_kept_step_gen2 V teq sem rhoR relR em em' red (subst_node t2o ro red') e1 Hi Hs).
+          * cbn [subst_node n_outs]. apply red'_outs.
+          * intros y Hy. rewrite Eor in Hy. destruct Hy as [<-|[]]. apply rho_ro.
+          * exact Hfr.
+          * exact HndO.
+          * intros vs o Hl Hsem Hlen0.
+            assert (Ho : o = [yv]).
+            { unfold step in Hs. destruct (lookups V em (n_uses red)) as [vs0|] eqn:El0; [|discriminate].
+              assert (vs0 = vs) by congruence. subst vs0. rewrite Hsem, Eor in Hs. rewrite Eor in Hlen0.
+              destruct o as [|y0 [|]]; try discriminate. simpl in Hs. injection Hs as <-.
+              pose proof (Hle1 ro y0) as H1. unfold upds, upd in H1. simpl in H1. unfold upd in H1. rewrite Nat.eqb_refl in H1. specialize (H1 eq_refl). congruence. }
+            subst o.
+            assert (Hrl : rel_list V relR (n_outs red) [yv] [y']).
+            { rewrite Eor. constructor; [now apply rel_ro | constructor]. }
+            unfold n_uses. cbn [subst_node n_ins n_caps n_op n_attrs].
+            assert (Hcaps' : n_caps red' = []) by (unfold red'; destruct (ra_axes a); exact Hcaps). rewrite Hcaps'. cbn [map]. rewrite app_nil_r.
+            unfold new_axes in Hnew. unfold axes_ok in Hax. unfold red'. unfold red' in Hcaps'.
+            destruct (ra_axes a) as [|l|l] eqn:Eax.
+            -- destruct Hax as [Hr0 Hat]. cbn [n_ins n_op n_attrs]. rewrite Hir', Hr0. cbn [tl map]. fold (rhoR src). rewrite (rho_other src Hsrc_t2).
+               exists [w], [y']. split; [simpl; now rewrite Ew|]. split; [|exact Hrl].
+               rewrite (Hrm1 _ _ w Hop Hkd), Hat, Hnew. reflexivity.
+            -- destruct Hax as [Hr0 (ax & l0 & Hat & Hm & Hl0)]. cbn [n_ins n_op n_attrs]. rewrite Hir', Hr0. cbn [tl map]. fold (rhoR src). rewrite (rho_other src Hsrc_t2).
+               exists [w], [y']. split; [simpl; now rewrite Ew|]. split; [|exact Hrl].
+               destruct (n_attrs red) as [|kd ar] eqn:Eat; [discriminate|].
+               assert (Hkd' : kd_of (kd :: 1 :: map (fun k => 2 * k) l) = Some 1) by exact Hkd.
+               rewrite (Hrm1 _ _ w Hop Hkd'). cbn [ax_of]. rewrite map_map.
+               rewrite (map_ext (fun k => dec_z (2 * k)) Z.of_nat dec_z_even). rewrite Hnew. reflexivity.
+            -- destruct Hax as (a0 & rr & ax & l0 & Hr0 & Hc0 & Hm & Hl0). cbn [n_ins n_op n_attrs]. rewrite Hir', Hr0. cbn [tl map].
+               destruct Hrr as [Hrr|[a1 Hrr]]; [congruence|]. rewrite Hr0 in Hrr. injection Hrr as <- ->. cbn [map].
+               fold (rhoR src) (rhoR fresh). rewrite (rho_other src Hsrc_t2).
+               assert (Hft2 : fresh <> t2o).
+               { intro E. assert (Hb : t2o <= max_name g).
+                 { apply max_name_ge. right. exists T2. split; [exact HT2in|]. apply in_or_app. right. apply in_or_app. right. rewrite T2_outs. now left. }
+                 unfold fresh in E. lia. }
+               assert (Hfro : fresh <> ro).
+               { intro E. assert (Hb : ro <= max_name g).
+                 { apply max_name_ge. right. exists red. split; [exact Hredin|]. apply in_or_app. right. apply in_or_app. right. rewrite Eor. now left. }
+                 unfold fresh in E. lia. }
+               rewrite (rho_other fresh Hft2).
+               destruct Hfresh as (vnew & Evn & Hdn).
+               assert (Hemf : em fresh = Some vnew).
+               { apply (eval_mono V sem pre e em fresh vnew Hpre Evn). intro Hin.
+                 assert (Hin' : In fresh (defs (rt_nodes g))) by (rewrite Hsplit; unfold defs in *; rewrite flat_map_app; apply in_or_app; now left).
+                 unfold defs in Hin'. apply in_flat_map in Hin' as (m & Hm0 & Hy).
+                 assert (Hb : fresh <= max_name g) by (apply max_name_ge; right; exists m; split; auto; apply in_or_app; right; apply in_or_app; now right).
+                 unfold fresh in Hb. lia. }
+               destruct (proj1 Hi fresh vnew Hemf) as (wf & Ewf & Hrf). rewrite (rho_other fresh Hft2) in Ewf. apply (rel_other fresh) in Hrf; [|exact Hfro].
+               exists [w; wf], [y']. split; [simpl; now rewrite Ew, Ewf|]. split; [|exact Hrl].
+               assert (Hdw : denoteZ wf = Some (map Z.of_nat l)) by (rewrite <- (denote_teq _ _ Hrf); exact Hdn).
+               rewrite (Hrm2 _ _ w wf _ Hop Hkd Hdw), Hnew. reflexivity.
+        + (* any other kept node: all operands and results are equivalent *)
+          assert (Hne : n <> red) by (intro E; subst n; rewrite node_eqb_refl in Enr; discriminate).
+          assert (HneT : n <> T2) by (intro E; subst n; rewrite keepb_T2 in Ek; discriminate).
+          assert (Htrn : trn n = subst_map rhoR n) by (unfold trn; rewrite Enr; reflexivity). rewrite Htrn.
+          assert (Huses : ~ In ro (n_uses n)).
+          { unfold n_uses. intro Hin. apply in_app_or in Hin as [Hin|Hin]; [apply HneT; now apply Hcons | exact (not_obs_caps n Hn Hin)]. }
+          assert (Houts : ~ In ro (n_outs n)) by (intro Hin; apply Hne; now apply outs_red).
+          apply (rinv_kept_step V teq sem rhoR relR em em' n e1 Hi Hs).
+          * intros y Hy. apply rho_other. intro E. subst y. apply HneT. now apply outs_T2.
+          * exact Hfr.
+          * exact HndO.
+          * intros vs vs' o Hl Hl' Hrl Hsem Hlen0. pose proof (rel_list_teq _ _ _ Huses Hrl) as Hteq.
+            destruct (sem_proper _ _ _ _ _ Hteq Hsem) as (o' & Hsem' & Ho'). exists o'. split; [exact Hsem'|].
+            apply teq_rel_list; auto.
+      - (* T2 is dropped: its result is already there *)
+        pose proof (keepb_false n Hn Ek) as E. subst n.
+        apply (rinv_dropped_step V sem rhoR relR em em' T2 t2o e1 Hi Hs T2_outs).
+        + apply Hfr. rewrite T2_outs. now left.
+        + intros vs v Hl Hsem.
+          destruct (tnode_val A sem Htr T2 q vs [v] HT2 Hp2 Hsem) as (x & y & -> & Hy & Hteq & Hlx). injection Hy as <-.
+          unfold n_uses in Hl. rewrite Hi2', Ec2 in Hl. simpl in Hl. destruct (em ro) as [rv1|] eqn:Er; [|discriminate]. injection Hl as ->.
+          destruct (proj1 Hi ro x Er) as (w & Ew & Hrw). rewrite rho_ro in Ew. apply rel_ro in Hrw. destruct Hrw as [Hxw Hlw].
+          exists w. rewrite rho_t2o. split; [exact Ew|]. apply rel_other; [intro E; exact (ro_ne_t2o (eq_sym E))|].
+          eapply teq_trans; [exact Hteq|]. eapply teq_trans.
+          * apply transpose_teq; [exact Hq | unfold rank; exact Hlx | exact Hxw].
+          * apply transpose_inverse; [exact Hp | exact Hq | unfold rank; now symmetry | exact Hinv].
+    Qed.
+
+    Hypothesis Hrmc : rt_const g ro = None.
+
+    Lemma rinv_start : rinv V rhoR relR e e.
+    Proof.
+      split; [|auto]. intros x v Hx.
+      assert (Hnd0 : ~ In x (defs (rt_nodes g))) by (intro Hin; rewrite (proj2 Hssa x Hin) in Hx; discriminate).
+      assert (Hx2 : x <> t2o).
+      { intro E. apply Hnd0. unfold defs. apply in_flat_map. exists T2. split; [exact HT2in|]. rewrite T2_outs, E. now left. }
+      assert (Hxr : x <> ro).
+      { intro E. apply Hnd0. unfold defs. apply in_flat_map. exists red. split; [exact Hredin|].
+        destruct red_shape as (_ & _ & _ & Eo & _). rewrite Eo, E. now left. }
+      exists v. rewrite (rho_other x Hx2). split; [exact Hx|]. apply rel_other; [exact Hxr | apply teq_refl].
+    Qed.
+
+    Lemma tr_env : exists ef', evalg (rt_nodes (apply_tr g a)) e = Some ef' /\ rinv V rhoR relR ef ef'.
+    Proof.
+      rewrite apply_tr_eq. cbn [rt_nodes].
+      apply (sim_env V sem (rinv V rhoR relR) keepb trn (rt_nodes g) e ef Hssa rinv_start Hev).
+      intros pre n post em em' e1 Hsplit Hpre Hle Hi Hs Hle1. exact (tr_node_step pre n post em em' e1 Hsplit Hpre Hle Hi Hs Hle1).
+    Qed.
+
+    Lemma tr_ssa : ssa V (rt_nodes (apply_tr g a)) e.
+    Proof. rewrite apply_tr_eq. cbn [rt_nodes]. apply (ssa_sim V keepb trn (rt_nodes g) e trn_outs Hssa). Qed.
+
+    Lemma tr_run o : run V sem (rt_graph g) e = Some o ->
+      exists o', run V sem (rt_graph (apply_tr g a)) e = Some o' /\ Forall2 teq o o'.
+    Proof.
+      unfold run, rt_graph. cbn [g_nodes g_outputs]. rewrite Hev. intro Hl.
+      destruct tr_env as (ef' & Hev' & Hi). rewrite Hev'. rewrite apply_tr_eq. cbn [rt_outputs].
+      destruct (rinv_lookups V rhoR relR ef ef' _ _ Hi Hl) as (o' & Hl' & Hrl). exists o'. split; [exact Hl'|].
+      exact (rel_list_teq _ _ _ not_obs_out Hrl).
+    Qed.
+
+    Lemma mentioned_new x : mentioned (apply_tr g a) x -> mentioned g x \/ (x = fresh /\ exists l, ra_axes a = AxInput l).
+    Proof.
+      assert (Hro_m : mentioned g ro).
+      { right. exists red. split; [exact Hredin|]. destruct red_shape as (_ & _ & _ & Eo & _). rewrite Eo. apply in_or_app. right. apply in_or_app. right. now left. }
+      assert (Hsrc_m : mentioned g src).
+      { right. exists T1. split; [exact HT1in|]. destruct T1_shape as (t & xs & tv & Ei1 & _). rewrite Ei1. now left. }
+      assert (Hrho : forall y, mentioned g y -> mentioned g (rhoR y)).
+      { intros y Hy. unfold rhoR, rn. destruct (Nat.eqb y t2o); auto. }
+      rewrite apply_tr_eq. unfold mentioned at 1. cbn [rt_outputs rt_nodes]. intros [Hx|(n' & Hn' & Hx)].
+      - left. apply in_map_iff in Hx as (y & <- & Hy). apply Hrho. now left.
+      - apply in_map_iff in Hn' as (n & <- & Hn). apply filter_In in Hn as [Hn _].
+        assert (Hnm : forall y, In y (n_ins n ++ n_caps n ++ n_outs n) -> mentioned g y) by (intros y Hy; right; eauto).
+        unfold trn in Hx. destruct (node_eqb n red) eqn:Enr.
+        + apply node_eqb_eq in Enr. subst n. cbn [subst_node n_ins n_caps n_outs] in Hx. rewrite red'_outs in Hx.
+          apply in_app_or in Hx as [Hx|Hx].
+          * apply in_map_iff in Hx as (y & <- & Hy).
+            assert (Hy' : mentioned g y \/ (y = fresh /\ exists l, ra_axes a = AxInput l)).
+            { unfold red' in Hy. destruct (ra_axes a) as [|l|l] eqn:Eax; cbn [n_ins] in Hy.
+              - destruct Hy as [<-|Hy]; [now left|]. left. apply Hnm. apply in_or_app. left. destruct (n_ins red); [contradiction | now right].
+              - destruct Hy as [<-|Hy]; [now left|]. left. apply Hnm. apply in_or_app. left. destruct (n_ins red); [contradiction | now right].
+              - destruct Hy as [<-|[<-|Hy]]; [now left | right; eauto |]. left. apply Hnm. apply in_or_app. left.
+                destruct (n_ins red) as [|i0 [|i1 ir]]; try contradiction. right. now right. }
+            destruct Hy' as [Hy'|[-> Hl]]; [left; now apply Hrho|]. right. split; [|exact Hl].
+            unfold rhoR, rn. destruct (Nat.eqb_spec fresh t2o) as [E|_]; [|reflexivity]. exfalso.
+            assert (Hb : t2o <= max_name g).
+            { apply max_name_ge. right. exists T2. split; [exact HT2in|]. apply in_or_app. right. apply in_or_app. right. rewrite T2_outs. now left. }
+            unfold fresh in E. lia.
+          * left. apply in_app_or in Hx as [Hx|Hx].
+            -- apply in_map_iff in Hx as (y & <- & Hy). apply Hrho. apply Hnm. apply in_or_app. right. apply in_or_app. left.
+               unfold red' in Hy. destruct (ra_axes a); exact Hy.
+            -- apply Hnm. apply in_or_app. right. apply in_or_app. now right.
+        + left. cbn [subst_node n_ins n_caps n_outs] in Hx. apply in_app_or in Hx as [Hx|Hx].
+          * apply in_map_iff in Hx as (y & <- & Hy). apply Hrho. apply Hnm. apply in_or_app. now left.
+          * apply in_app_or in Hx as [Hx|Hx].
+            -- apply in_map_iff in Hx as (y & <- & Hy). apply Hrho. apply Hnm. apply in_or_app. right. apply in_or_app. now left.
+            -- apply Hnm. apply in_or_app. right. apply in_or_app. now right.
+    Qed.
+
+    Lemma tr_const ef' x l v : evalg (rt_nodes (apply_tr g a)) e = Some ef' -> x <= max_name (apply_tr g a) ->
+      rt_const (apply_tr g a) x = Some l -> ef' x = Some v -> denoteZ v = Some l.
+    Proof.
+      intros Hev' Hb Hc Hx. destruct tr_env as (ef0 & Hev0 & Hi). rewrite Hev' in Hev0. injection Hev0 as <-.
+      destruct red_shape as (_ & _ & _ & Eor & _). pose proof Hfresh as Hfresh0.
+      assert (Hbound : max_name (apply_tr g a) <= match ra_axes a with AxInput _ => fresh | _ => max_name g end).
+      { apply max_name_le. intros y Hy. destruct (mentioned_new y Hy) as [Hm|[-> (l0 & El)]].
+        - assert (y <= max_name g) by (apply max_name_ge; exact Hm). destruct (ra_axes a); unfold fresh; lia.
+        - rewrite El. lia. }
+      rewrite apply_tr_eq in Hc. cbn [rt_const] in Hc. unfold const' in Hc.
+      assert (Hmain : x <= max_name g -> rt_const g x = Some l -> denoteZ v = Some l).
+      { intros Hxb Hcx.
+        assert (Hd : ef x <> None) by (apply (proj2 Hi); congruence).
+        destruct (ef x) as [v0|] eqn:Ex; [|congruence].
+        assert (Hxr : x <> ro) by (intro E; subst x; congruence).
+        assert (Hx2 : x <> t2o).
+        { intro E. subst x. assert (Hnone : ef' t2o = None).
+          { apply (eval_undefined V sem _ _ _ t2o Hev').
+            - apply (proj2 Hssa). unfold defs. apply in_flat_map. exists T2. split; [exact HT2in|]. rewrite T2_outs. now left.
+            - rewrite apply_tr_eq. cbn [rt_nodes]. unfold defs. intro Hin. apply in_flat_map in Hin as (n' & Hn' & Hy).
+              apply in_map_iff in Hn' as (n & <- & Hn). apply filter_In in Hn as [Hn Hk]. rewrite trn_outs in Hy.
+              rewrite (outs_T2 n Hn Hy) in Hk. rewrite keepb_T2 in Hk. discriminate. }
+          congruence. }
+        destruct (proj1 Hi x v0 Ex) as (w & Ew & Hr). rewrite (rho_other x Hx2) in Ew. apply (rel_other x) in Hr; [|exact Hxr].
+        assert (w = v) by congruence. subst w. rewrite <- (denote_teq _ _ Hr). exact (Hconst x l v0 Hxb Hcx Ex). }
+      destruct (ra_axes a) as [|l0|l0] eqn:Eax; [apply Hmain; auto; lia | apply Hmain; auto; lia |].
+      destruct (Nat.eqb_spec x fresh) as [E|Hne].
+      - injection Hc as <-. subst x. destruct Hfresh0 as (vnew & Evn & Hdn).
+        assert (Hef : ef fresh = Some vnew).
+        { apply (eval_mono V sem _ e ef fresh vnew Hev Evn). intro Hin. unfold defs in Hin. apply in_flat_map in Hin as (m & Hm0 & Hy).
+          assert (Hb2 : fresh <= max_name g) by (apply max_name_ge; right; exists m; split; auto; apply in_or_app; right; apply in_or_app; now right).
+          unfold fresh in Hb2. lia. }
+        assert (Hft2 : fresh <> t2o).
+        { intro E. assert (Hb2 : t2o <= max_name g).
+          { apply max_name_ge. right. exists T2. split; [exact HT2in|]. apply in_or_app. right. apply in_or_app. right. rewrite T2_outs. now left. }
+          unfold fresh in E. lia. }
+        assert (Hfro : fresh <> ro).
+        { intro E. assert (Hb2 : ro <= max_name g).
+          { apply max_name_ge. right. exists red. split; [exact Hredin|]. rewrite Eor. apply in_or_app. right. apply in_or_app. right. now left. }
+          unfold fresh in E. lia. }
+        destruct (proj1 Hi fresh vnew Hef) as (w & Ew & Hr). rewrite (rho_other fresh Hft2) in Ew. apply (rel_other fresh) in Hr; [|exact Hfro].
+        assert (w = v) by congruence. subst w. rewrite <- (denote_teq _ _ Hr). exact Hdn.
+      - apply Hmain; auto. unfold fresh in *. lia.
+    Qed.
+
+    Lemma tr_rm : (forall n y, In n (rt_nodes g) -> is_rm n = true -> In y (n_outs n) -> rt_const g y = None) ->
+      forall n y, In n (rt_nodes (apply_tr g a)) -> is_rm n = true -> In y (n_outs n) -> rt_const (apply_tr g a) y = None.
+    Proof.
+      intros Hold n' y Hn' Hr Hy. rewrite apply_tr_eq in Hn' |- *. cbn [rt_nodes rt_const] in *.
+      apply in_map_iff in Hn' as (n & <- & Hn). apply filter_In in Hn as [Hn _]. rewrite trn_outs in Hy.
+      assert (Hrn : is_rm n = true).
+      { unfold trn in Hr. destruct (node_eqb n red) eqn:Enr.
+        - apply node_eqb_eq in Enr. subst n. exact Hrm.
+        - exact Hr. }
+      pose proof (Hold n y Hn Hrn Hy) as Hc. unfold const'. destruct (ra_axes a) as [|l|l]; auto.
+      destruct (Nat.eqb_spec y fresh) as [E|_]; [|exact Hc]. exfalso.
+      assert (Hb : y <= max_name g) by (apply max_name_ge; right; exists n; split; auto; apply in_or_app; right; apply in_or_app; now right).
+      unfold fresh in E. lia.
+    Qed.
   End RAction.
+
+  (* ---------------------------------------------------------------- the pass *)
+  (* the converter can build the integer vector it registers as the new initializer *)
+  Variable mkZ : list Z -> V.
+  Hypothesis denote_mkZ : forall l, denoteZ (mkZ l) = Some l.
+
+  (* admissible: SSA, the constant annotation [rt_const] (what _value_const_ints resolves) is true of every successful
+     run, and the result of a ReduceMean is not annotated constant *)
+  Record radm (g : rgraphT) (e : env V) : Prop := {
+    ra_ssa : ssa V (rt_nodes g) e;
+    ra_const : forall ef x l v, evalg (rt_nodes g) e = Some ef -> x <= max_name g -> rt_const g x = Some l -> ef x = Some v -> denoteZ v = Some l;
+    ra_rm : forall n y, In n (rt_nodes g) -> is_rm n = true -> In y (n_outs n) -> rt_const g y = None }.
+
+  (* the environment after one rewrite: the created initializer (if any) is added under the created name *)
+  Definition ext_env (g : rgraphT) (a : raction) (e : env V) : env V :=
+    match ra_axes a with AxInput l => upd V e (S (max_name g)) (mkZ (map Z.of_nat l)) | _ => e end.
+
+  Lemma unmentioned_uses g x : max_name g < x -> forall n y, In n (rt_nodes g) -> In y (n_uses n) -> ~ In y [x].
+  Proof.
+    intros Hx n y Hn Hy [E|[]]. subst y. assert (Hb : x <= max_name g).
+    { apply max_name_ge. right. exists n. split; auto. unfold n_uses in Hy. apply in_app_or in Hy as [Hy|Hy]; apply in_or_app; [now left | right; apply in_or_app; now left]. }
+    lia.
+  Qed.
+
+  Lemma agree_upd (e : env V) x v : agree_except V [x] e (upd V e x v).
+  Proof. intros y Hy. unfold upd. destruct (Nat.eqb_spec y x) as [E|_]; [exfalso; apply Hy; now left | reflexivity]. Qed.
+  Lemma agree_sym dead (e e' : env V) : agree_except V dead e e' -> agree_except V dead e' e.
+  Proof. intros H y Hy. symmetry. now apply H. Qed.
+
+  Lemma radm_upd g e x v : max_name g < x -> radm g e -> radm g (upd V e x v).
+  Proof.
+    intros Hx [Hs Hc Hr]. split.
+    - split; [exact (proj1 Hs)|]. intros y Hy. unfold upd. destruct (Nat.eqb_spec y x) as [E|_]; [|exact (proj2 Hs y Hy)]. exfalso.
+      unfold defs in Hy. apply in_flat_map in Hy as (n & Hn & Hy). assert (Hb : y <= max_name g).
+      { apply max_name_ge. right. exists n. split; auto. apply in_or_app. right. apply in_or_app. now right. }
+      lia.
+    - intros ef1 y l w Hev1 Hb Hcy Hy.
+      destruct (eval_agree V sem [x] (rt_nodes g) (upd V e x v) e ef1 (agree_sym _ _ _ (agree_upd e x v)) (unmentioned_uses g x Hx) Hev1) as (ef & Hev & Hag).
+      assert (Hyx : ~ In y [x]) by (intros [E|[]]; lia). rewrite (Hag y Hyx) in Hy. exact (Hc ef y l w Hev Hb Hcy Hy).
+    - exact Hr.
+  Qed.
+
+  Lemma apply_tr_const g a x : (forall l, ra_axes a = AxInput l -> x <> S (max_name g)) -> rt_const (apply_tr g a) x = rt_const g x.
+  Proof.
+    intro H. unfold apply_tr. destruct (first_in (ra_T1 a)); [|reflexivity]. destruct (out1 (ra_red a)); [|reflexivity].
+    destruct (out1 (ra_T2 a)); [|reflexivity]. cbn [rt_const]. destruct (ra_axes a) as [|l|l]; auto.
+    destruct (Nat.eqb_spec x (S (max_name g))) as [E|_]; [|reflexivity]. destruct (H l eq_refl E).
+  Qed.
+
+  (* ONE REWRITE *)
+  Theorem tr_action_sound g T2 a e ef : radm g e -> In T2 (rt_nodes g) -> decide_tr g T2 = Some a -> evalg (rt_nodes g) e = Some ef ->
+    radm (apply_tr g a) (ext_env g a e) /\
+    (forall o, run V sem (rt_graph g) e = Some o ->
+       exists o', run V sem (rt_graph (apply_tr g a)) (ext_env g a e) = Some o' /\ Forall2 teq o o').
+  Proof.
+    intros Hadm HT2in Hdec Hev.
+    destruct (decide_tr_facts g T2 a Hdec) as (p & q & xin & rin & rrest & ro & src & HeT2 & HT2 & Hi2 & Ho2 & Hpx & Hrm & Hir & HpT1 & HT1 & Hp1 & Hp2 &
+      Hinvok & Hkd & Hax & Hro & Hsrc & Hobs & Hcons & Hcaps & Hlen).
+    subst T2. set (e1 := ext_env g a e).
+    assert (Hadm1 : radm g e1).
+    { unfold e1, ext_env. destruct (ra_axes a); auto. apply radm_upd; auto. }
+    assert (Hev1 : exists ef1, evalg (rt_nodes g) e1 = Some ef1 /\ agree_except V [S (max_name g)] ef ef1).
+    { unfold e1, ext_env. destruct (ra_axes a) as [|l|l]; try (exists ef; split; [exact Hev | intros y _; reflexivity]).
+      apply (eval_agree V sem [S (max_name g)] (rt_nodes g) e _ ef (agree_upd e _ _)); auto. apply unmentioned_uses. lia. }
+    destruct Hev1 as (ef1 & Hev1 & Hag).
+    assert (Hfresh : match ra_axes a with
+                     | AxInput l => exists vnew, e1 (S (max_name g)) = Some vnew /\ denoteZ vnew = Some (map Z.of_nat l)
+                     | _ => True end).
+    { unfold e1, ext_env. destruct (ra_axes a) as [|l|l]; auto. exists (mkZ (map Z.of_nat l)). split; [|apply denote_mkZ].
+      unfold upd. now rewrite Nat.eqb_refl. }
+    pose proof (ra_ssa _ _ Hadm1) as Hssa1.
+    assert (Hconst1 : forall x l v, x <= max_name g -> rt_const g x = Some l -> ef1 x = Some v -> denoteZ v = Some l).
+    { intros x l v. exact (ra_const _ _ Hadm1 ef1 x l v Hev1). }
+    assert (Hredin : In (ra_red a) (rt_nodes g)) by exact (proj1 (producer_spec _ _ _ Hpx)).
+    assert (Hro_out : In ro (n_outs (ra_red a))).
+    { unfold out1 in Hro. destruct (n_outs (ra_red a)); [discriminate|]. injection Hro as ->. now left. }
+    assert (Hrmc : rt_const g ro = None) by exact (ra_rm _ _ Hadm1 _ ro Hredin Hrm Hro_out).
+    split.
+    - split.
+      + eapply (tr_ssa g a e1); eassumption.
+      + eapply (tr_const g a e1); eassumption.
+      + eapply (tr_rm g a e1); try eassumption. exact (ra_rm _ _ Hadm1).
+    - intros o Hrun.
+      assert (Hrun1 : run V sem (rt_graph g) e1 = Some o).
+      { unfold run, rt_graph in *. cbn [g_nodes g_outputs] in *. rewrite Hev in Hrun. rewrite Hev1. rewrite <- Hrun. symmetry.
+        apply (lookups_agree V [S (max_name g)] ef ef1 _ Hag). intros y Hy [E|[]]. subst y.
+        assert (Hb : S (max_name g) <= max_name g) by (apply max_name_ge; now left). lia. }
+      eapply (tr_run g a e1); eassumption.
+  Qed.
+
+  (* the final environment differs from the given one only where the rewritten graph's constant annotation says what the
+     value is (the initializers the pass created) *)
+  Definition env_ext (g' : rgraphT) (e e' : env V) : Prop :=
+    forall x, e' x = e x \/ exists l v, rt_const g' x = Some l /\ e' x = Some v /\ denoteZ v = Some l.
+
+  Lemma env_ext_step g T2 a e0 e : decide_tr g T2 = Some a -> env_ext g e0 e -> env_ext (apply_tr g a) e0 (ext_env g a e).
+  Proof.
+    intros Hdec H x.
+    destruct (decide_tr_facts g T2 a Hdec) as (p & q & xin & rin & rrest & ro & src & HeT2 & HT2 & Hi2 & Ho2 & Hpx & Hrm & Hir & HpT1 & HT1 & Hp1 & Hp2 &
+      Hinvok & Hkd & Hax & Hro & Hsrc & Hobs & Hcons & Hcaps & Hlen).
+    unfold ext_env. destruct (ra_axes a) as [|l|l] eqn:Eax.
+    - rewrite apply_tr_const by (intros l El; congruence). apply H.
+    - rewrite apply_tr_const by (intros l0 El; congruence). apply H.
+    - destruct (Nat.eq_dec x (S (max_name g))) as [->|Hne].
+      + right. exists (map Z.of_nat l), (mkZ (map Z.of_nat l)). split; [|split; [unfold upd; now rewrite Nat.eqb_refl | apply denote_mkZ]].
+        unfold apply_tr. rewrite Hsrc, Hro, HeT2. unfold out1. destruct (n_outs T2) as [|o2 or2]; [congruence|]. cbn [hd_error rt_const].
+        rewrite Eax. now rewrite Nat.eqb_refl.
+      + rewrite apply_tr_const by (intros l0 _; exact Hne). unfold upd. destruct (Nat.eqb_spec x (S (max_name g))); [contradiction|]. apply H.
+  Qed.
+
+  (* THE PASS: for every graph that is admissible when the pass starts, in the environment extended by the created initializers *)
+  Theorem tr_pass_sound : forall fuel g e0 e, radm g e -> env_ext g e0 e ->
+    forall o, run V sem (rt_graph g) e = Some o ->
+    exists e' o', env_ext (tr_pass fuel g) e0 e' /\ run V sem (rt_graph (tr_pass fuel g)) e' = Some o' /\ Forall2 teq o o'.
+  Proof.
+    induction fuel as [|k IH]; intros g e0 e Hadm Hext o Hrun.
+    - exists e, o. split; [exact Hext|]. split; [exact Hrun|]. clear. induction o; constructor; auto. apply teq_refl.
+    - cbn [tr_pass]. unfold tr_step. destruct (first_some (decide_tr g) (rt_nodes g)) as [a|] eqn:Efs; cbn [option_map].
+      + destruct (first_some_spec _ _ _ Efs) as (T2 & HT2in & Hdec).
+        assert (Hev : exists ef, evalg (rt_nodes g) e = Some ef).
+        { unfold run in Hrun. cbn [rt_graph g_nodes] in Hrun. destruct (evalg (rt_nodes g) e); [eauto | discriminate]. }
+        destruct Hev as [ef Hev].
+        destruct (tr_action_sound g T2 a e ef Hadm HT2in Hdec Hev) as [Hadm' Hr].
+        destruct (Hr o Hrun) as (o1 & Hrun1 & Ho1).
+        destruct (IH (apply_tr g a) e0 (ext_env g a e) Hadm' (env_ext_step g T2 a e0 e Hdec Hext) o1 Hrun1) as (e' & o' & He' & Hrun' & Ho').
+        exists e', o'. split; [exact He'|]. split; [exact Hrun'|].
+        clear - Ho1 Ho'. revert o' Ho'. induction Ho1 as [|x y l l' Hxy _ IHl]; intros o' Ho'; inversion Ho'; subst; constructor; eauto using teq_trans.
+      + exists e, o. split; [exact Hext|]. split; [exact Hrun|]. clear. induction o; constructor; auto. apply teq_refl.
+  Qed.
+
+  Lemma env_ext_refl g e : env_ext g e e.
+  Proof. intro x. now left. Qed.
+
+  Corollary tr_pass_sound_start fuel g e : radm g e -> forall o, run V sem (rt_graph g) e = Some o ->
+    exists e' o', env_ext (tr_pass fuel g) e e' /\ run V sem (rt_graph (tr_pass fuel g)) e' = Some o' /\ Forall2 teq o o'.
+  Proof. intros Hadm o Hrun. exact (tr_pass_sound fuel g e e Hadm (env_ext_refl g e) o Hrun). Qed.
 End RSound.
+
+(* ---- the statements with the hypotheses packaged *)
+Definition reduce_laws (A : Type) (reduce : list nat -> tensor A -> tensor A) : Prop :=
+  (forall S S' x, (forall a, In a S <-> In a S') -> teq (reduce S x) (reduce S' x)) /\
+  (forall S x x', teq x x' -> teq (reduce S x) (reduce S x')) /\
+  (forall p S x, is_perm p -> length p = length (shape x) -> Forall (fun a => a < length p) S ->
+     teq (reduce S (transpose p x)) (transpose p (reduce (map (fun a => nth a p 0) S) x))) /\
+  (forall S x, length (shape (reduce S x)) = length (shape x)).
+
+Definition sem_reducemean_spec (A : Type) (sem : string -> list nat -> list (tensor A) -> option (list (tensor A)))
+  (norm : string -> string) (denoteZ : tensor A -> option (list Z)) (reduce : list nat -> tensor A -> tensor A) : Prop :=
+  (forall op ats x, norm op = "ReduceMean"%string -> kd_of ats = Some 1 ->
+     sem op ats [x] = option_map (fun y => [y]) (red_sem A reduce (ax_of ats) x)) /\
+  (forall op ats x a ax, norm op = "ReduceMean"%string -> kd_of ats = Some 1 -> denoteZ a = Some ax ->
+     sem op ats [x; a] = option_map (fun y => [y]) (red_sem A reduce (Some ax) x)).
+
+Theorem reduce_axes_law (A : Type) reduce : reduce_laws A reduce ->
+  forall p x oax y, is_perm p -> length p = length (shape x) -> red_sem A reduce oax (transpose p x) = Some y ->
+    match oax with
+    | None => exists y', red_sem A reduce None x = Some y' /\ teq y (transpose p y') /\ length (shape y') = length p
+    | Some ax => exists l y', map_axes p ax = Some l /\ red_sem A reduce (Some (map Z.of_nat (sort_nat l))) x = Some y' /\
+                              teq y (transpose p y') /\ length (shape y') = length p
+    end.
+Proof. intros (H1 & H2 & H3 & H4). exact (red_law A reduce H1 H3 H4). Qed.
+
+Theorem transpose_reduce_action_sound (A : Type) sem :
+  (forall op ats vs vs' o, Forall2 teq vs vs' -> sem op ats vs = Some o -> exists o', sem op ats vs' = Some o' /\ Forall2 teq o o') ->
+  sem_transpose_spec A sem op_type ->
+  forall reduce, reduce_laws A reduce ->
+  forall denoteZ, (forall v v', teq v v' -> denoteZ v = denoteZ v') -> sem_reducemean_spec A sem op_type denoteZ reduce ->
+  forall mkZ : list Z -> tensor A, (forall l, denoteZ (mkZ l) = Some l) ->
+  forall g T2 a e ef, radm A sem denoteZ g e -> In T2 (rt_nodes g) -> decide_tr g T2 = Some a ->
+    eval (tensor A) sem (rt_nodes g) e = Some ef ->
+    radm A sem denoteZ (apply_tr g a) (ext_env A mkZ g a e) /\
+    (forall o, run (tensor A) sem (rt_graph g) e = Some o ->
+       exists o', run (tensor A) sem (rt_graph (apply_tr g a)) (ext_env A mkZ g a e) = Some o' /\ Forall2 teq o o').
+Proof.
+  intros Hp Ht reduce (H1 & H2 & H3 & H4) denoteZ Hd (Hr1 & Hr2) mkZ Hm.
+  exact (tr_action_sound A sem Hp Ht reduce H1 H2 H3 H4 denoteZ Hd Hr1 Hr2 mkZ Hm).
+Qed.
+
+Theorem transpose_reduce_pass_sound (A : Type) sem :
+  (forall op ats vs vs' o, Forall2 teq vs vs' -> sem op ats vs = Some o -> exists o', sem op ats vs' = Some o' /\ Forall2 teq o o') ->
+  sem_transpose_spec A sem op_type ->
+  forall reduce, reduce_laws A reduce ->
+  forall denoteZ, (forall v v', teq v v' -> denoteZ v = denoteZ v') -> sem_reducemean_spec A sem op_type denoteZ reduce ->
+  forall mkZ : list Z -> tensor A, (forall l, denoteZ (mkZ l) = Some l) ->
+  forall fuel g e, radm A sem denoteZ g e ->
+    forall o, run (tensor A) sem (rt_graph g) e = Some o ->
+    exists e' o', env_ext A denoteZ (tr_pass fuel g) e e' /\
+                  run (tensor A) sem (rt_graph (tr_pass fuel g)) e' = Some o' /\ Forall2 teq o o'.
+Proof.
+  intros Hp Ht reduce (H1 & H2 & H3 & H4) denoteZ Hd (Hr1 & Hr2) mkZ Hm.
+  exact (tr_pass_sound_start A sem Hp Ht reduce H1 H2 H3 H4 denoteZ Hd Hr1 Hr2 mkZ Hm).
+Qed.
+
+(* non-vacuity of the modelled decision: axes = [1] (attribute form) and axes = [-1] (input form, constant 9) under perm [1;0] *)
+Example tr_reduce_folded_attr :
+  let g := mkRT [mkNode "Transpose" [1; 1; 0] [1] [] [2]; mkNode "ReduceMean" [2; 1; 2] [2] [] [3]; mkNode "Transpose" [1; 1; 0] [3] [] [4]] [4]
+               (fun _ => None) in
+  rt_nodes (tr_pass 5 g) = [mkNode "Transpose" [1; 1; 0] [1] [] [2]; mkNode "ReduceMean" [2; 1; 0] [1] [] [3]] /\ rt_outputs (tr_pass 5 g) = [3].
+Proof. vm_compute. split; reflexivity. Qed.
+
+Example tr_reduce_folded_input :
+  let g := mkRT [mkNode "Transpose" [1; 1; 0] [1] [] [2]; mkNode "ReduceMean" [2; 0] [2; 9] [] [3]; mkNode "Transpose" [1; 1; 0] [3] [] [4]] [4]
+               (fun x => if Nat.eqb x 9 then Some [(-1)%Z] else None) in
+  rt_nodes (tr_pass 5 g) = [mkNode "Transpose" [1; 1; 0] [1] [] [2]; mkNode "ReduceMean" [2; 0] [1; 10] [] [3]] /\ rt_outputs (tr_pass 5 g) = [3] /\
+  rt_const (tr_pass 5 g) 10 = Some [0%Z].
+Proof. vm_compute. repeat split; reflexivity. Qed.
